@@ -27,20 +27,21 @@ pub enum Case {
 pub const DEF: PropDef = PropDef {
     id: "C20",
     rule: "Monotonicity: for every code x parameter (zeta 1..=16,24,32,48,63; pi/exp-Golomb/Rice 0..=16,24,32,48,63; Golomb and minimal binary \
-moduli 1..=64 and sampled large) the library length of v is <= that of v+1 for every v below 2^16 (quick) / 2^20 (thorough), around every power \
+moduli 1..=64 and sampled large) the library length of v (through every length entry point: len_*, len_*_param::<true|false>, ...) is <= that of v+1 for every v below 2^16 (quick) / 2^21 (thorough), around every power \
 of two up to 2^64-2, and for seeded random pairs a <= b. Kraft: exact integer arithmetic (carry propagation over the histogram of lengths) of \
-sum_{n<N} 2^-len(n) <= 1 for N = 2^16 / 2^20 (partial sums are non-decreasing in N), and over the full 64-bit domain for the universal codes via \
+sum_{n<N} 2^-len(n) <= 1 for N = 2^16 / 2^21 (partial sums are non-decreasing in N), and over the full 64-bit domain for the universal codes via \
 brackets of constant length found by an independent bisection on the library length function and validated by random probes inside each \
 bracket. Iterator: FindChangePoints on every library length function and on synthetic monotone step functions with arbitrary sorted step \
 positions (0..=12 steps from {small, 2^i+-1, random, beyond 2^63}, constant functions included): the first item is (0, f(0)); positions \
 strictly increase; every item is a true change point paired with the new value; no change point <= 2^63 is missing; the iterator returns None \
 after at most (number of change points + 1) items; no single next() evaluates the function more than 4096 times (deterministic \
 non-termination detector: an exponential plus binary search needs < 200) or panics. get_implied_distribution returns for every library length \
-function with change points and probabilities equal to brute force. Non-trivial: every case (each batch covers length steps); distinct = \
+function with change points and probabilities equal to brute force, and sample_implied_distribution yields values inside the support. Non-trivial: every case (each batch covers length steps); distinct = \
 distinct case hashes; elementary_checks counts values / pairs / iterator items.",
     assumptions: &["exact integer arithmetic for Kraft sums", "D14: change points above 2^63 may be missed by the iterator but whatever it yields must be right and it must end", "D5/D6 domains"],
     run,
     replay,
+    from_bytes: None,
 };
 
 pub fn lib_len(code: Code, v: u64) -> usize {
@@ -198,6 +199,8 @@ pub fn check_case(c: &Case, _env: &Env) -> CheckResult {
         Case::Monotone { code, start, n } => {
             let top = len_domain_max(*code);
             let mut prev = lib_len(*code, *start);
+            // every length entry point of the code (table options included) must be monotone
+            let mut prev_all = crate::dispatch::direct_lens(*code, *start);
             for v in *start..(*start).saturating_add(*n as u64) {
                 if v >= top {
                     break;
@@ -207,6 +210,13 @@ pub fn check_case(c: &Case, _env: &Env) -> CheckResult {
                     fail!(format!("monotone/{}", code.family()), "{:?}: len({}) = {} > len({}) = {}", code, v, prev, v + 1, nx);
                 }
                 prev = nx;
+                let nx_all = crate::dispatch::direct_lens(*code, v + 1);
+                for (a, b) in prev_all.iter().zip(nx_all.iter()) {
+                    if b.1 < a.1 {
+                        fail!(format!("monotone/{}/{}", code.family(), a.0), "{:?}: {}({}) = {} > {}({}) = {}", code, a.0, v, a.1, b.0, v + 1, b.1);
+                    }
+                }
+                prev_all = nx_all;
                 o.units += 1;
             }
         }
@@ -332,6 +342,36 @@ pub fn check_case(c: &Case, _env: &Env) -> CheckResult {
                 }
                 o.units += 1;
             }
+            // sampling can be set up and yields values of the sampled bracket
+            if cps.len() >= 2 {
+                use rand::SeedableRng;
+                EVALS.with(|e| e.set(0));
+                let res = guarded(|| {
+                    let mut rng = rand::rngs::SmallRng::seed_from_u64(code.param() + 20);
+                    let g = move |x: u64| {
+                        EVALS.with(|e| {
+                            e.set(e.get() + 1);
+                            if e.get() > 200 * BUDGET {
+                                panic!("evaluation budget exceeded: sample_implied_distribution does not terminate");
+                            }
+                        });
+                        lib_len(code, x)
+                    };
+                    sample_implied_distribution(g, &mut rng).take(200).collect::<Vec<u64>>()
+                });
+                match res {
+                    Ok(samples) => {
+                        let last = cps.last().unwrap().0;
+                        for x in samples {
+                            if x >= last || f(x) > 128 {
+                                fail!("implied/sample", "{:?}: sampled value {} lies outside the implied distribution's support (last change point {})", code, x, last);
+                            }
+                            o.units += 1;
+                        }
+                    }
+                    Err(p) => fail!(if p.contains("budget") { "implied/nontermination" } else { "implied/sample_panic" }, "sample_implied_distribution({:?}): {}", code, p),
+                }
+            }
         }
     }
     Ok(o)
@@ -363,12 +403,12 @@ fn universal(code: Code) -> bool {
 
 fn run(ctx: &Ctx, env: &Env) -> Stats {
     let mut jobs: Vec<Job> = vec![];
-    let top: u64 = ctx.t(1 << 16, 1 << 20);
+    let top: u64 = ctx.t(1 << 16, 1 << 21);
     let codes = code_list(ctx);
     for (ci, chunk) in codes.chunks(8).enumerate() {
         let chunk = chunk.to_vec();
         jobs.push(Box::new(move |ctx: &Ctx| {
-            let mut part = Part::new(ctx, format!("lengths/{}", ci), "monotone on all small values and around powers of two, random pairs, exact Kraft sums", false);
+            let mut part = Part::new(ctx, format!("lengths/{}", ci), "monotone on all small values and around powers of two (every length entry point incl. table options), random pairs, exact Kraft sums", false);
             let f = |c: &Case| check_case(c, env);
             let mut r = Rng::new(ctx.seed + ci as u64);
             for &code in &chunk {
